@@ -177,31 +177,9 @@ def run(prog: Program, res: Result) -> None:
             attr = next(t.attr for t in a.targets if isinstance(t, ast.Attribute))
             res.fail("C14.R2b", file=rel, line=a.lineno, qualname=f"CachingLoaderMixin.{fname}", construct=f"store cached_template.{attr}", message=f"CachingLoaderMixin.{fname} assigns `{attr}` on the cached Template, which every earlier caller still holds: a template obtained with one caller's globals renders with the globals of whoever fetched (or included) it last", what=f"`{norm(a, 60)}` does not modify the shared cached object")
 
-    # freshness of file-backed templates: equality of the recorded and the current mtime
-    n_up = 0
-    for cinfo in prog.subclasses("liquid2.loader.BaseLoader"):
-        for nm, m in cinfo.methods.items():
-            if not nm.startswith("_uptodate"):
-                continue
-            n_up += 1
-            cmps = [c for c in ast.walk(m.node) if isinstance(c, ast.Compare)]
-            what = f"{cinfo.name}.{nm}: fresh iff recorded mtime == current st_mtime"
-            from sa import twins as _tw
+    from checks.shared import check_freshness_equality
 
-            sync_nm = _tw.strip_async_name(nm)
-            if sync_nm != nm and sync_nm in cinfo.methods and _tw.is_default_delegation(m.node, sync_nm):
-                res.ok("C14.R3", f"{m.file}:{m.node.lineno} {cinfo.name}.{nm}", what, f"runs {cinfo.name}.{sync_nm} in an executor with the same arguments")
-                continue
-            # a missing file is stale (the reload then reports it): the only other exit allowed is `return False` in an OSError handler
-            handlers = [h for h in ast.walk(m.node) if isinstance(h, ast.ExceptHandler)]
-            if any(not (norm(h.type) in ("OSError", "FileNotFoundError") and len(h.body) == 1 and isinstance(h.body[0], ast.Return) and isinstance(h.body[0].value, ast.Constant) and h.body[0].value.value is False) for h in handlers):
-                res.fail("C14.R3", file=m.file, line=m.node.lineno, qualname=f"{cinfo.name}.{nm}", construct=f"{nm} swallows an error as fresh", message="the freshness test handles an error by reporting anything other than 'stale': a vanished or unreadable source keeps being served from the cache", what=what)
-                continue
-            if len(cmps) == 1 and len(cmps[0].ops) == 1 and isinstance(cmps[0].ops[0], ast.Eq) and "st_mtime" in norm(cmps[0]) and "mtime" in norm(cmps[0].left):
-                res.ok("C14.R3", f"{m.file}:{m.node.lineno} {cinfo.name}.{nm}", what, norm(cmps[0]))
-            else:
-                res.fail("C14.R3", file=m.file, line=m.node.lineno, qualname=f"{cinfo.name}.{nm}", construct=f"{nm} comparison {[norm(c) for c in cmps]}", message="the freshness test is not an equality of modification times: a source replaced by an older file (rollback, cp -p, rsync -t) is treated as unchanged and the stale template keeps being served", what=what)
-    res.floor("C14.R3", "_uptodate implementations", n_up, 2)
+    check_freshness_equality(prog, res, "C14.R3")
 
     # ------------------------------------------------------------------ R2 / R3 on the CFG of _check_cache*
     res.rule("C14.R2", "every path of _check_cache* that returns the cached object first rebinds its global_data from the caller's globals, unconditionally")
@@ -228,7 +206,9 @@ def run(prog: Program, res: Result) -> None:
                 return False
             for t in nd.targets:
                 if isinstance(t, ast.Attribute) and t.attr == "global_data" and isinstance(t.value, ast.Name) and t.value.id == cached:
-                    return globals_param in {x.id for x in ast.walk(nd.value) if isinstance(x, ast.Name)}
+                    names = {x.id for x in ast.walk(nd.value) if isinstance(x, ast.Name)}
+                    # from the caller's globals alone: a fallback to what the cached object already holds keeps an earlier caller's globals
+                    return globals_param in names and cached not in names
             return False
 
         def is_stale_test(n: object) -> bool:
